@@ -10,7 +10,7 @@ ASSUMPTIONS = [
     '-DNDEBUG build',
 ]
 OUTSIDE = ['more than 3 levels', 'grids other than 9x8/5x4 and 17x16/9x8/5x4', 'rounding']
-BOUNDS = {'quick': 'V cycle plain and extrapolated, give, both boundary modes, (nu1,nu2) in {(1,1),(0,0)}; W and F cycles once each on 2 levels and once each on 3 levels (17x16/9x8/5x4)',
+BOUNDS = {'quick': 'V cycle plain and extrapolated, give, both boundary modes, (nu1,nu2) in {(1,1),(0,0)}; every one of the six cycle functions on 2 levels (fixed point and nu=0 coarse correction); W and F once each on 3 levels (17x16/9x8/5x4)',
           'thorough': 'V/W/F x plain/extrapolated x both strategies x both modes x (nu1,nu2) in {(0,0),(1,1),(2,1),(0,2)} x extrapolation modes 0-3 (COMBINED with either smoother active); 2 levels, and 3 levels for the fixed point'}
 
 
@@ -32,6 +32,12 @@ def jobs(tier, seed):
         add('h_fixed_point', 0, 2, 1, 0, 1, 1, 0, 0, 0, 0)
         add('h_coarse_correction', 1, 1, 0, 0, 1, 1, 0, 0, 0, 0)
         add('h_coarse_correction', 2, 0, 1, 1, 0, 0, 0, 0, 0, 0)
+        # the two-level (direct-solve) branch of each of the six cycle functions against the algebraic correction, and from the fixed point
+        add('h_coarse_correction', 1, 1, 0, 0, 0, 0, 0, 0, 0, 0)
+        add('h_coarse_correction', 1, 0, 1, 1, 0, 0, 0, 0, 0, 0)
+        add('h_coarse_correction', 2, 2, 0, 1, 0, 0, 0, 0, 0, 0)
+        add('h_fixed_point', 1, 1, 1, 1, 1, 1, 0, 0, 0, 0)
+        add('h_fixed_point', 2, 0, 1, 0, 1, 1, 0, 0, 0, 0)
         # three levels: the recursive branches of the F and W cycles (stale scratch vectors on the intermediate level)
         add('h_fixed_point', 2, 0, 0, 0, 1, 1, 1, 0, 0, 0)
         add('h_fixed_point', 1, 1, 1, 1, 1, 1, 1, 0, 0, 0)
